@@ -6,6 +6,7 @@ import (
 	"maps"
 	"net/http"
 	"os"
+	"path/filepath"
 	"strconv"
 	"strings"
 
@@ -564,21 +565,69 @@ func (r *Runner) Format(rslv resolver.Resolver) error {
 		return err
 	}
 
+	// Format into memory first: the target file must not be touched before the result exists
 	formatted := formatter.New(r.config.Format).Format(vcl)
-	var w io.Writer
-	if r.config.Format.Overwrite {
-		writeln(cyan, "Formatted %s.", main.Name)
-		fp, err := os.OpenFile(main.Name, os.O_TRUNC|os.O_WRONLY, 0o644)
-		if err != nil {
+	if formatted == nil {
+		return fmt.Errorf("Failed to format %s: only VCL declarations can be formatted", main.Name)
+	}
+	buf, err := io.ReadAll(formatted)
+	if err != nil {
+		return errors.WithStack(err)
+	}
+	if !r.config.Format.Overwrite {
+		if _, err := os.Stdout.Write(buf); err != nil {
 			return errors.WithStack(err)
 		}
-		defer fp.Close()
-		w = fp
-	} else {
-		w = os.Stdout
+		return nil
 	}
-	if _, err := io.Copy(w, formatted); err != nil {
+	if err := overwriteFile(main.Name, buf); err != nil {
 		return err
+	}
+	writeln(cyan, "Formatted %s.", main.Name)
+	return nil
+}
+
+// overwriteFile replaces the content of the file atomically: the data is written to a temporary file
+// in the same directory which is then renamed over the target. On any failure the target keeps its bytes.
+func overwriteFile(name string, data []byte) error {
+	target, err := filepath.EvalSymlinks(name)
+	if err != nil {
+		return errors.WithStack(err)
+	}
+	info, err := os.Stat(target)
+	if err != nil {
+		return errors.WithStack(err)
+	}
+	// A file that cannot be opened for writing is not replaced
+	probe, err := os.OpenFile(target, os.O_WRONLY, 0)
+	if err != nil {
+		return errors.WithStack(err)
+	}
+	probe.Close()
+
+	tmp, err := os.CreateTemp(filepath.Dir(target), ".falco-fmt-*")
+	if err != nil {
+		return errors.WithStack(err)
+	}
+	fail := func(err error) error {
+		tmp.Close()
+		os.Remove(tmp.Name())
+		return errors.WithStack(err)
+	}
+	if _, err := tmp.Write(data); err != nil {
+		return fail(err)
+	}
+	if err := tmp.Chmod(info.Mode().Perm()); err != nil {
+		return fail(err)
+	}
+	if err := tmp.Sync(); err != nil {
+		return fail(err)
+	}
+	if err := tmp.Close(); err != nil {
+		return fail(err)
+	}
+	if err := os.Rename(tmp.Name(), target); err != nil {
+		return fail(err)
 	}
 	return nil
 }
